@@ -106,8 +106,14 @@ func Discharge(obligs []*Oblig, opt DischargeOpts) []Result {
 				os[k] = obligs[i]
 			}
 			script := mkScript(os, false)
-			v := solve.Decide(script, opt.Timeout, opt.All)
-			if v.Status == "unsat" {
+			// groups get one short attempt; a group that is not proved at once is split
+			gt := 3 * time.Second
+			if opt.Timeout < gt {
+				gt = opt.Timeout
+			}
+			r := solve.Run(solve.Solvers[0], script, gt)
+			v := solve.Verdict{Status: r.Answer, By: r.Solver, Secs: r.Secs}
+			if v.Status == "unsat" && !opt.All {
 				mu.Lock()
 				for _, i := range g {
 					res[i].Status, res[i].By, res[i].Secs, res[i].Grouped = "unsat", v.By, v.Secs/float64(len(g)), true
